@@ -512,9 +512,17 @@ def arg_spec(op, rng, consts, variant_hint, benign, falsy=False):
             else:
                 keys = []
                 for _ in range(rng.randrange(0 if p.default is None else 1, 4)):
-                    k = gen_ident(rng, [c for c in consts if c[0].isupper() and c not in ('GraphID', 'NodeID', 'Class')])
+                    k = gen_ident(rng, [c for c in consts if c[0].isupper() and c not in RESERVED_KEYS])
                     if k not in keys:
                         keys.append(k)
+                # the keys the backend itself fills in (and lets the caller override): systematically present
+                if variant_hint % 4 == 1:
+                    keys = [k for k in keys if k != 'Class']
+                    keys.insert(rng.randrange(len(keys) + 1), 'Class')
+                elif variant_hint % 4 == 2:
+                    for k in rng.sample(RESERVED_KEYS, rng.randrange(1, len(RESERVED_KEYS) + 1)):
+                        if k not in keys:
+                            keys.insert(rng.randrange(len(keys) + 1), k)
                 shape[name] = {'dict': keys}
         elif name == 'other_graph':
             shape[name] = {'graph': 1}
@@ -525,10 +533,13 @@ def arg_spec(op, rng, consts, variant_hint, benign, falsy=False):
                 types = ['GPU', 'SmartNIC', 'SharedNIC', 'FPGA', 'NVME', 'Storage']
                 shape[name] = {'comps': [[rng.choice(types), rng.random() < 0.85] for _ in range(rng.randrange(1, 4))]}
         elif name == 'merge_properties':
-            if variant_hint % 2 == 0:
-                shape[name] = None
-            else:
-                shape[name] = {'policy': rng.randrange(1, 4)}
+            # every shape of a policy map: absent, empty, a lone catch-all (bare / back-ticked), one ordinary key,
+            # caller-chosen keys, catch-all plus another, several.  A fixed key is part of the shape (the same in both
+            # value assignments), None is a caller-chosen (adversarial) key; the values are always stored values.
+            shapes = [None, [], ['.*'], ['`.*`'], ['Name'], [None, None], ['.*', 'Name'], ['Name', 'Site', None],
+                      ['`addr.*`'], [None]]
+            ks = shapes[variant_hint % len(shapes)]
+            shape[name] = None if ks is None else {'policy': len(ks), 'keys': ks}
         elif name == 'hops':
             shape[name] = {'list': rng.randrange(0, 3)}
         elif name == 'cut_off':
@@ -597,7 +608,8 @@ def fill(shape, rng, benign):
             out[name] = [[t, adv_string(rng, benign) if has_model else None, adv_string(rng, True)]
                          for t, has_model in sh['comps']]
         elif 'policy' in sh:
-            out[name] = [[adv_string(rng, benign), adv_string(rng, benign)] for _ in range(sh['policy'])]
+            ks = sh.get('keys') or [None] * sh['policy']
+            out[name] = [[k if k is not None else adv_string(rng, benign), adv_string(rng, benign)] for k in ks]
         elif 'list' in sh:
             out[name] = [adv_string(rng, benign) for _ in range(sh['list'])]
         elif 'int' in sh:
@@ -732,6 +744,9 @@ def collect_strings(v, out):
 # not required to arrive verbatim as a parameter: `hops` is used by the method itself to filter results; the keys of
 # a merge policy are property-name patterns whose quoting belongs to the statement syntax
 CLIENT_SIDE_ARGS = ('hops', 'merge_properties (key)')
+# keys the backend fills in itself from other arguments; a caller's props may override them (all_props.update(props))
+RESERVED_KEYS = ['Class', 'GraphID', 'NodeID', 'Type', 'Name']
+OVERRIDDEN_BY = {'NodeID': 'node_id', 'GraphID': 'graph_id'}
 
 # (receiver class, inherited public method): every parameter is a stored string (or a sliver of stored strings)
 COMPOSITE = [
@@ -808,9 +823,65 @@ class Ops(Stream):
         labels = ['NetworkNode', 'NetworkService', 'Component', 'ConnectionPoint', 'Link', 'CompositeNode']
         return {'label': labels[i % len(labels)] if i else 'NetworkNode', 'empty': i > 0 and rng.random() < 0.2}
 
+    def mk_case(self, op, i, rng, consts):
+        """the i-th case of an operation: i drives the argument SHAPES systematically (optional arguments absent /
+        present, props with and without the reserved keys, every policy-map shape, components or none, receiver
+        class), the rng the identifiers and stored values"""
+        cls = op.split('.')[0]
+        falsy = i % 4 == 3
+        try:
+            idents, shape, vals = arg_spec(op, rng, consts, i, benign=(i % 5 == 4), falsy=falsy)
+        except Exception as e:
+            return {'op': op, 'unsupported': repr(e)}
+        recv = cls
+        if cls == 'Neo4jPropertyGraph':
+            recv = SUBCLASSES[i % len(SUBCLASSES)] if i % 2 else cls
+        return {'op': op, 'recv': recv, 'idents': idents, 'shape': shape, 'vals': vals,
+                'benign': i % 5 == 4 or falsy, 'falsy': falsy, 'fake': self.fake(rng, i, consts)}
+
+    def reach_missing(self, cases, rng, consts, tier):
+        """search for statement variants the regular cases do not reach: dry-run the cases (observations are kept
+        for the real run), and for every template still unreached enumerate further argument shapes of its
+        operation; a case that reaches a new template is kept, together with a few more of the same shape (other
+        values), so that the oracle judges the variant like any other"""
+        templates = analysis()['templates']
+        hit = set()
+        for c in cases:
+            o = self.observe(c)
+            self._memo[id(c)] = o
+            for r in o['runs']:
+                hit.update(s['tid'] for s in r['stmts'])
+        extra = []
+        budget = 150 if tier == 'quick' else 600
+        for op in self.ops():
+            want = {t['id'] for t in templates if t['op'] == op} - hit
+            if not want:
+                continue
+            for i in range(16, 16 + budget):
+                c = self.mk_case(op, i, rng, consts)
+                if 'unsupported' in c:
+                    break
+                o = self.observe(c)
+                got = {s['tid'] for r in o['runs'] for s in r['stmts']} & want
+                if got:
+                    c['reached_by_search'] = sorted(got)
+                    self._memo[id(c)] = o
+                    extra.append(c)
+                    for j in range(5):       # same shape index, other identifiers / values
+                        c2 = self.mk_case(op, i, rng, consts)
+                        if 'unsupported' not in c2:
+                            c2['reached_by_search'] = sorted(got)
+                            extra.append(c2)
+                    want -= got
+                    hit |= got
+                    if not want:
+                        break
+        return extra
+
     def gen(self, rng, tier):
         a = analysis()
         consts = [v for _, v in a['consts']]
+        self._memo = {}
         per_op = 16 if tier == 'quick' else 150
         out = []
         for op in self.ops():
@@ -821,17 +892,11 @@ class Ops(Stream):
                 out.append({'op': op, 'unsupported': 'class %s can not be imported by the harness: %r' % (cls, e)})
                 continue
             for i in range(per_op):
-                falsy = i % 4 == 3
-                try:
-                    idents, shape, vals = arg_spec(op, rng, consts, i, benign=(i % 5 == 4), falsy=falsy)
-                except Exception as e:
-                    out.append({'op': op, 'unsupported': repr(e)})
+                c = self.mk_case(op, i, rng, consts)
+                out.append(c)
+                if 'unsupported' in c:
                     break
-                recv = cls
-                if cls == 'Neo4jPropertyGraph':
-                    recv = SUBCLASSES[i % len(SUBCLASSES)] if i % 2 else cls
-                out.append({'op': op, 'recv': recv, 'idents': idents, 'shape': shape, 'vals': vals,
-                            'benign': i % 5 == 4 or falsy, 'falsy': falsy, 'fake': self.fake(rng, i, consts)})
+        out += self.reach_missing(out, rng, consts, tier)
         # composite public operations inherited from the abstract layer: they issue their statements through the
         # sites above, with identifier arguments that are interface constants and stored values passed on
         per_c = 6 if tier == 'quick' else 40
@@ -856,9 +921,13 @@ class Ops(Stream):
                         out.append(json.load(f))
         return out
 
+    _memo = {}
+
     def observe(self, case):
         if 'unsupported' in case:
             return {'runs': [], 'unsupported': case['unsupported']}
+        if id(case) in self._memo:
+            return self._memo.pop(id(case))      # observed during the coverage search of gen(): same call, same result
         templates = analysis()['templates']
         runs = []
         for vals in case['vals']:
@@ -949,8 +1018,10 @@ class Ops(Stream):
             allp = set()
             for s in r['stmts']:
                 allp.update(s['param_strings'])
+            pk = (case['shape'].get('props') or {}).get('dict', [])
+            overridden = {OVERRIDDEN_BY[k] for k in pk if k in OVERRIDDEN_BY}     # props win over the plain argument
             for name, v in stored_strings(case['shape'], vals, case['op']):
-                if name in CLIENT_SIDE_ARGS:
+                if name in CLIENT_SIDE_ARGS or name in overridden:
                     continue
                 if v not in allp and not any(arrives_in_literal(s['text'], v) for s in r['stmts']):
                     return '%s: value-lost: the stored value of %s reaches the driver neither intact as a parameter nor as a correctly escaped literal' % (
@@ -984,6 +1055,7 @@ class Ops(Stream):
             h['no_statement'] += n == 0
             h['benign_cases'] += bool(c.get('benign'))
             h['falsy_value_cases'] = h.get('falsy_value_cases', 0) + bool(c.get('falsy'))
+            h['found_by_coverage_search'] = h.get('found_by_coverage_search', 0) + bool(c.get('reached_by_search'))
             k = c.get('recv', '?')
             h['by_class'][k] = h['by_class'].get(k, 0) + 1
         h['templates_hit'] = len(hit - {None})
